@@ -1,9 +1,44 @@
-(* run_C18.ml — check <fm> <imode> <iid> <isig> <wmode|-> <wid> <wsig> <isdir>  ->  1 (reported unstaged) / 0 *)
+(* run_C18.ml —
+   check <fm> <imode> <iid> <isig> <wmode|-> <wid> <wsig> <isdir>  ->  1 (reported unstaged) / 0
+   status <fm> <head> <index> <worktree> <paths>  ->  p:admuU ... (five 0/1 flags per path)
+   step <fm> <head> <index> <worktree> <paths> <op>  ->  index after the operation at the paths: p:mode:id:same | p:-
+   listings: head p:mode:id,...  index p:mode:id:sig,...  worktree p:mode:id:sig:isdir,...   ("-" = empty)
+   op: stage:p | stageall:p.p.p | rmcached:p | unstage:p:sig | write:p:mode:id:sig | mkdir:p | delete:p *)
+let z s = z_of_int (int_of_string s)
+let rec nat_of_int n = if n <= 0 then O else S (nat_of_int (n - 1))
+let rec int_of_nat = function O -> 0 | S n -> 1 + int_of_nat n
+let items s = if s = "-" then [] else String.split_on_char ',' s
+let fields s = String.split_on_char ':' s
+let head s = List.map (fun it -> match fields it with
+  | [p; m; i] -> (nat_of_int (int_of_string p), { e_mode = z m; e_id = z i }) | _ -> failwith "head") (items s)
+let index s = List.map (fun it -> match fields it with
+  | [p; m; i; g] -> (nat_of_int (int_of_string p), { i_entry = { e_mode = z m; e_id = z i }; i_sig = z g }) | _ -> failwith "index") (items s)
+let worktree s = List.map (fun it -> match fields it with
+  | [p; m; i; g; d] -> (nat_of_int (int_of_string p), { w_entry = { e_mode = z m; e_id = z i }; w_sig = z g; w_isdir = (d = "1") }) | _ -> failwith "wt") (items s)
+let paths s = if s = "-" then [] else List.map (fun p -> nat_of_int (int_of_string p)) (String.split_on_char '.' s)
+let b x = if x then "1" else "0"
+let parse_op s = match fields s with
+  | ["stage"; p] -> OStage (nat_of_int (int_of_string p))
+  | ["stageall"; ps] -> OStageAll (paths ps)
+  | ["rmcached"; p] -> ORmCached (nat_of_int (int_of_string p))
+  | ["unstage"; p; g] -> OUnstage (nat_of_int (int_of_string p), z g)
+  | ["write"; p; m; i; g] -> OWrite (nat_of_int (int_of_string p), { e_mode = z m; e_id = z i }, z g)
+  | ["mkdir"; p] -> OMkdir (nat_of_int (int_of_string p))
+  | ["delete"; p] -> ODelete (nat_of_int (int_of_string p))
+  | _ -> failwith "op"
 let handle = function
   | ["check"; fm; im; ii; isg; wm; wi; ws; wd] ->
-      let z s = z_of_int (int_of_string s) in
       let i = { i_entry = { e_mode = z im; e_id = z ii }; i_sig = z isg } in
       let w = if wm = "-" then None else Some { w_entry = { e_mode = z wm; e_id = z wi }; w_sig = z ws; w_isdir = (wd = "1") } in
       if check_entry (fm = "1") i w then "1" else "0"
+  | ["status"; fm; h; i; w; ps] ->
+      let s = mk_state (head h) (index i) (worktree w) in
+      String.concat " " (List.map (fun (p, ((((a, d), m), u), t)) ->
+        Printf.sprintf "%d:%s%s%s%s%s" (int_of_nat p) (b a) (b d) (b m) (b u) (b t)) (status_at (fm = "1") s (paths ps)))
+  | ["step"; fm; h; i; w; ps; op] ->
+      let s = step (fm = "1") (mk_state (head h) (index i) (worktree w)) (parse_op op) in
+      String.concat " " (List.map (fun (p, e) -> match e with
+        | None -> Printf.sprintf "%d:-" (int_of_nat p)
+        | Some (en, same) -> Printf.sprintf "%d:%s:%s:%s" (int_of_nat p) (string_of_int (int_of_z en.e_mode)) (string_of_int (int_of_z en.e_id)) (b same)) (index_at s (paths ps)))
   | _ -> "EXN bad request"
 let () = serve handle
